@@ -364,3 +364,23 @@ Proof.
   destruct (next st) as [[line ev st'|line e]| |]; try exact H; [|exact L].
   destruct H as (H1 & H2 & H3 & _). split; [exact L|]. split; [exact H1|]. split; [exact H2|exact H3].
 Qed.
+
+(* ---------- the comment scan has enough fuel: its `None` is "no -->", never an exhausted counter ---------- *)
+Lemma comment_end_exact fuel rest : forall k, (List.length rest < k + fuel)%nat ->
+  match comment_end fuel rest k with
+  | Some k' => (k <= k' < List.length rest)%nat /\ starts_with [45; 45; 62]%N (skipn (k' - 2) rest) = true /\
+               forall j, (k <= j < k')%nat -> starts_with [45; 45; 62]%N (skipn (j - 2) rest) = false
+  | None => forall j, (k <= j < List.length rest)%nat -> starts_with [45; 45; 62]%N (skipn (j - 2) rest) = false
+  end.
+Proof.
+  induction fuel as [|f IH]; intros k L; cbn [comment_end].
+  - intros j Hj. lia.
+  - destruct (k <? List.length rest)%nat eqn:C.
+    + apply Nat.ltb_lt in C. destruct (starts_with [45; 45; 62]%N (skipn (k - 2) rest)) eqn:SW.
+      * split; [lia|]. split; [exact SW|]. intros j Hj. lia.
+      * specialize (IH (S k) ltac:(lia)). destruct (comment_end f rest (S k)) as [k'|].
+        -- destruct IH as (R & SW' & FIRST). split; [lia|]. split; [exact SW'|].
+           intros j Hj. destruct (Nat.eq_dec j k) as [->|NE]; [exact SW|apply FIRST; lia].
+        -- intros j Hj. destruct (Nat.eq_dec j k) as [->|NE]; [exact SW|apply IH; lia].
+    + apply Nat.ltb_ge in C. intros j Hj. lia.
+Qed.
